@@ -141,7 +141,10 @@ def dev_map_rules(C, P, RI, RR, lb=None):
             for q, tt in b.iter_terms():
                 if tt['k'] == 'switch' and is_local_op(tt['d']) and set(dict(tt['ts']).keys()) == {'0'}:
                     nm_, cs_, _k = all_sources(b, tt['d'], depth=8)
-                    if any(c.endswith('::is_empty') or c.endswith('::len') for c in cs_):
+                    # the flag may be the result of `list_opt.is_some_and(|list| { ..; list.is_empty() })`: what the closure returns counts
+                    from flow import deep_sources as _dsq
+                    cs_ = set(cs_) | set(_dsq(b, tt['d'], depth=10)[1])
+                    if any((c or '').endswith('::is_empty') or (c or '').endswith('::len') for c in cs_):
                         if must_pass(b, iteration_start(b, o['pos']), [o['pos']], through=(), avoid_edges={(q[0], tt['else'])}):
                             empt = True
             C.check(used or empt, RR, '%s|reference_origins.remove|list-discarded' % b.short, 'reference_origins.remove() in %s throws a referrer list away that may still hold references (its result is not stored again and it was not found empty): '
